@@ -36,5 +36,13 @@ for pid in sorted(lv):
               cov.get("evaluations"), cov.get("states"), cov.get("traces_validated_against_impl")))
 tail = tail.replace("STATUSTABLE", "\n".join(st))
 head = head.replace("32 seeded breaking changes", "%d seeded breaking changes" % n)
+import subprocess
+nfix = subprocess.run("git -C /repo log --oneline | grep -c ' fix:'", shell=True, capture_output=True, text=True).stdout.strip()
+nfind = sum(known.values())
+mods = glob.glob(V + "/spec/*.tla")
+nlines = sum(len(open(m).read().split("\n")) for m in mods)
+for k, v in (("NFIX", nfix), ("NFIND", str(nfind)), ("NMOD", str(len(mods))), ("NLINES", str(nlines)), ("NCFG", str(len(glob.glob(V + "/spec/*.cfg"))))):
+    head = head.replace(k, v)
+    tail = tail.replace(k, v)
 open(V + "/DESIGN.md", "w").write(head + tail)
 print("DESIGN.md written:", len((head + tail).split("\n")), "lines,", n, "seeds")
